@@ -28,12 +28,12 @@ import (
 )
 
 type op struct {
-	K      string // Local Global Set Mem
-	D      int    // dc index (0 = dc-1) ; -1 = global (Set)
-	C      uint32
-	Dmax   int
-	P, L   int64 // Global: the implementation's answer; Set: target
-	Rel    string
+	K    string // Local Global Set Mem
+	D    int    // dc index (0 = dc-1) ; -1 = global (Set)
+	C    uint32
+	Dmax int
+	P, L int64 // Global: the implementation's answer; Set: target
+	Rel  string
 }
 
 func (o op) coq() string {
@@ -217,9 +217,9 @@ func (w *world) stress(R *res.Result, dur time.Duration) {
 	stop := make(chan struct{})
 	var wg sync.WaitGroup
 	type ans struct {
-		p, l         int64
-		begin, end   int64
-		global       bool
+		p, l       int64
+		begin, end int64
+		global     bool
 	}
 	var mu sync.Mutex
 	var all []ans
